@@ -107,7 +107,7 @@ func runC20(r *core.R) {
 	for _, k := range kinds {
 		for _, attr := range docgen.NearDupAttrs[k] {
 			for _, diff := range []bool{false, true} {
-				for _, pl := range []string{"direct", "shared-subdict", "inherited"} {
+				for _, pl := range []string{"direct", "shared-subdict", "inherited", "shared-subdict+inherited-other", "shared-resources+inherited-other"} {
 					s := docgen.NearDupSpec{Kind: k, Attr: attr, Different: diff, Placement: pl}
 					cases = append(cases, dcase{fmt.Sprintf("neardup:%s/%s/different=%v/%s", k, attr, diff, pl), docgen.NearDup(s)})
 				}
